@@ -107,6 +107,7 @@ type World struct {
 	Probes     map[string]int // rare-branch probes / fault counters
 
 	faultOcc   map[string]int
+	siteLast   map[string]time.Duration
 	healing    bool
 	Infra      []string // infrastructure trouble (exit 2), never a verdict
 	NodeLogs   [2][]string
@@ -163,6 +164,7 @@ func (w *World) Infraf(format string, a ...interface{}) {
 
 // faultFor returns the planned fault for this (node, site) occurrence.
 func (w *World) faultFor(node int, site string) *Fault {
+	w.noteSite(keyOf(node, site))
 	if w.healing {
 		return nil
 	}
